@@ -27,7 +27,7 @@ import (
 var rec = vev.For("C11")
 
 func TestMain(m *testing.M) {
-	rec.SetRule("servers: webdav.Handler over an in-memory tree, caldav.Handler and carddav.Handler over recording backends with 0-4 collections x 0-4 members and varied metadata, webdav.ServePrincipal; request form {prop with a generated name set mixing supported, unsupported, foreign-namespace and repeated names in random order; propname; allprop; empty body; propfind with none of the three} x Depth {unset,0,1,infinity} x target at every hierarchy level. Oracle without a property table: 207 + strict well-formedness + RFC 4918 multi-status structure; per resource the names listed by a propname request define what it has - a prop request must account for every distinct requested name exactly once (200 if listed, else 404 and empty), propname elements are empty, allprop/empty body return exactly the listed names; a lower bound from the backend data keeps the relation from being vacuous; the hrefs must be exactly the resources the Depth puts in scope, each once; none-of-three gets 400. non-trivial = a prop request with >= 1 supported and >= 1 unsupported name at a level with >= 1 member and Depth != 0, or an allprop/propname request with >= 2 resources in scope; distinct by canonical JSON")
+	rec.SetRule("servers: webdav.Handler over an in-memory tree, caldav.Handler and carddav.Handler over recording backends with 0-4 collections x 0-4 members and varied metadata, webdav.ServePrincipal; request form {prop with a generated name set mixing supported, unsupported, foreign-namespace and repeated names in random order; propname; allprop; empty body; propfind with none of the three} x Depth {unset,0,1,infinity} x target at every hierarchy level. Oracle without a property table: 207 + strict well-formedness + RFC 4918 multi-status structure; per resource the names listed by a propname request define what it has - a prop request must account for every distinct requested name exactly once (200 if listed, else 404 and empty), propname elements are empty, allprop/empty body return exactly the listed names; a lower bound from the backend data keeps the relation from being vacuous; the hrefs must be exactly the resources the Depth puts in scope, each once; what a listing reports for a member (names, statuses, content) equals what the same request addressed to the member with Depth 0 reports; none-of-three gets 400. non-trivial = a prop request with >= 1 supported and >= 1 unsupported name at a level with >= 1 member and Depth != 0, or an allprop/propname request with >= 2 resources in scope; distinct by canonical JSON")
 	rec.Assume("backends do not fail; property values are not compared here (C05/C10 do that)", "at the CalDAV/CardDAV root only the number of responses (one) is checked: the server answers for the root with the principal's href and exposes no membership there")
 	vev.Main(m)
 }
@@ -343,6 +343,7 @@ func dev(kind, f string, a ...any) vev.Outcome {
 type found struct {
 	code  int
 	empty bool
+	canon string // canonical serialisation of the element (name, attributes, content)
 }
 
 // read parses and structurally validates a 207 answer; returns per-href the
@@ -384,7 +385,7 @@ func read(resp cfs.Resp, cls string) (map[string]map[vx.Name][]found, []string, 
 			}
 			seenCode[ps.Code] = true
 			for _, el := range ps.Props {
-				out[p][el.Name] = append(out[p][el.Name], found{ps.Code, len(el.Children) == 0})
+				out[p][el.Name] = append(out[p][el.Name], found{ps.Code, len(el.Children) == 0, string(vx.Write(el, vx.Fixed(0), false))})
 			}
 		}
 	}
@@ -428,6 +429,48 @@ func evaluate(c Case) (vev.Outcome, error) {
 		sort.Strings(have)
 		if strings.Join(want, "\x00") != strings.Join(have, "\x00") {
 			return dev(cls+"|scope|depth="+dflt(c.Depth), "PROPFIND %q Depth %q reported %q, in scope are %q", c.Target, c.Depth, have, want), nil
+		}
+	}
+	// (5) metamorphic, added after seeded change C11-s6: what a listing says about a member is what the member says
+	// about itself - the same request addressed to the member with Depth 0 must account for the same names under
+	// the same statuses with the same content (a table reused across members, or a value leaking from the previous
+	// member, is consistent with propname and invisible to relation (2))
+	if !countOnly && c.Depth != "0" && len(order) > 1 {
+		checked := 0
+		for _, path := range order {
+			if path == order[0] && len(order) > 6 {
+				continue
+			}
+			if checked >= 6 {
+				break
+			}
+			checked++
+			single, sorder, o := read(serve(w, path, "0", b, ct), cls+"|depth0-of-member")
+			if !o.OK() {
+				return o, nil
+			}
+			if len(sorder) != 1 || sorder[0] != path {
+				return dev(cls+"|depth0-of-member|scope", "PROPFIND %q Depth 0 answered for %q", path, sorder), nil
+			}
+			A, B := got[path], single[path]
+			for n, occ := range A {
+				if len(occ) != 1 || len(B[n]) != 1 {
+					continue // repetitions are relation (2)'s business
+				}
+				if occ[0].code != B[n][0].code || occ[0].canon != B[n][0].canon {
+					return dev(cls+"|listing-differs-from-depth0|"+n.Local, "in the Depth %q listing of %q member %q has %s as [%d] %s, asked directly (Depth 0) it has [%d] %s", c.Depth, c.Target, path, n, occ[0].code, occ[0].canon, B[n][0].code, B[n][0].canon), nil
+				}
+			}
+			for n := range B {
+				if _, ok := A[n]; !ok {
+					return dev(cls+"|listing-differs-from-depth0|"+n.Local, "member %q has %s when asked directly but not in the Depth %q listing of %q", path, n, c.Depth, c.Target), nil
+				}
+			}
+			for n := range A {
+				if _, ok := B[n]; !ok {
+					return dev(cls+"|listing-differs-from-depth0|"+n.Local, "member %q has %s in the Depth %q listing of %q but not when asked directly", path, n, c.Depth, c.Target), nil
+				}
+			}
 		}
 	}
 	// (2) accounting against what propname lists
